@@ -28,6 +28,7 @@ import (
 	"fmt"
 
 	"github.com/tochemey/goakt/v4/actor"
+	"github.com/tochemey/goakt/v4/internal/verifhook"
 )
 
 // workerTask is sent by parallelMapActor to a worker func actor carrying one element to transform.
@@ -99,6 +100,7 @@ func newParallelMapActor[In, Out any](n int, fn func(In) Out, ordered bool, cfg 
 func (a *parallelMapActor[In, Out]) PreStart(_ *actor.Context) error { return nil }
 
 func (a *parallelMapActor[In, Out]) Receive(rctx *actor.ReceiveContext) {
+	verifhook.At("stream.recv", rctx, 0, 0)
 	switch msg := rctx.Message().(type) {
 	case *stageWire:
 		a.upstream = msg.upstream
